@@ -304,6 +304,13 @@ func collect(v interface{}, path string, out *[]node) {
 
 var otherKinds = []func() interface{}{
 	func() interface{} { return json.Number("12") },
+	func() interface{} { return json.Number("0") },
+	func() interface{} { return json.Number("7") },
+	func() interface{} { return "" },
+	func() interface{} { return "x" },
+	func() interface{} { return false },
+	func() interface{} { return json.Number("-1") },
+	func() interface{} { return json.Number("1.5") },
 	func() interface{} { return json.Number("-3.5e2") },
 	func() interface{} { return "str" },
 	func() interface{} { return true },
